@@ -160,6 +160,30 @@ let () =
            | "upper" -> hex (nl_upper (s 0))
            | "lower" -> hex (nl_lower (s 0))
            | "utf8char" -> res hex (nl_utf8char (n 0))
+           | "packsize" -> res dec_of_z (nl_packsize (s 0))
+           | "packsize_luaspec" -> (match lua_packsize (s 0) with LVal v -> dec_of_z v | LErr -> "!error")
+           | "utf8len" ->
+             (match nl_utf8len (s 0) (n 1) (n 2) (int_of_z (n 3) = 0) with
+              | Val (LenOk k) -> dec_of_z k
+              | Val (LenFail p) -> "fail " ^ dec_of_z p
+              | Val LenFuel -> "!fuel"
+              | Trap -> "!trap" | Unsafe -> "!unsafe")
+           | "utf8offset" -> res dec_of_z (nl_utf8offset (s 0) (n 1) (n 2))
+           | "utf8offset2" -> res dec_of_z (nl_utf8offset (s 0) (n 1) (offset_default (s 0) (n 1)))
+           | "utf8codes" ->
+             let src = s 0 in
+             let strict = int_of_z (n 1) = 0 in
+             let buf = Buffer.create 64 in
+             let rec loop i k first =
+               if k > List.length src + 1 then "!fuel"
+               else match nl_codes_step src i strict with
+                 | StepEnd -> "[" ^ Buffer.contents buf ^ "]"
+                 | StepErr -> "!trap"
+                 | StepVal (p, c) ->
+                   if not first then Buffer.add_char buf ' ';
+                   Buffer.add_string buf (dec_of_z p ^ ":" ^ dec_of_z c);
+                   loop p (k + 1) false in
+             loop Z0 0 true
            | "utf8codepoint" -> res dec_of_z (nl_utf8codepoint (s 0) (n 1) (int_of_z (n 2) = 0))
            | "pack1" ->
              (* modelled: [<>=]?[iI]<size> and the native integer options b B h H l L j J T (LP64 sizes) *)
